@@ -167,7 +167,7 @@ class Ctx:
         cmd += (extra or [])
         cmd.append(module + ".tla")
         env = dict(os.environ)
-        jo = "-Xss512m"
+        jo = "-Xss512m -Djava.io.tmpdir=%s" % d      # TLC's own temporary directories go with the scratch
         if javaopts:
             jo += " " + javaopts
         env["JAVA_TOOL_OPTIONS"] = jo
